@@ -46,6 +46,10 @@ def run(ctx):
     rb = ctx.fn("pocket_db::Store::remove_by_id")
     an = ctx.E.an(rb)
     cs = s.calls(rb, names={"pocket_db::Store::remove_by_offset"})
+    if not cs:
+        # the removal funnel written out (or renamed) here: what is deindexed must still be the event fetched at the id
+        # index's entry for the given id
+        cs = s.calls(rb, names={"pocket_db::Lmdb::deindex"})
     ok = bool(cs) and all(contains_value(i["args"][2], lambda x: x[0] == "call" and x[1].endswith("get_offset_by_id") and ("param", 3) in x[2])
                           for b, i in cs)
     s.add("S-REL", rb, "removes-the-named-event", "remove_by_id", rb.sp, PROVED if ok else VIOLATION,
